@@ -718,3 +718,274 @@ def c10(case, F):
             if d is not None and f["submit"]["spec"].get("k") in ("ok", "sleep") and not _fut_expected_ok(f):
                 v.append((_sig(case, F, "task_lost_by_resize", etype=(d.get("exc") or {}).get("type")), witness_text(case, F, "task %s did not complete with its own result across a resize: %s" % (name, json.dumps(d)[:300]))))
     return v
+
+
+# ------------------------------------------------------------------ C19
+def _walk_nested(val, parent_depth, limit, out, path, fork_ok_level=None):
+    """val = ['nested', tid, {...}] returned by a worker at depth parent_depth+1."""
+    if not (isinstance(val, list) and len(val) == 3 and val[0] == "nested"):
+        return
+    info = val[2]
+    d = info.get("depth")
+    out["levels"] += 1
+    if d != parent_depth + 1:
+        out["viol"].append(("depth_not_parent_plus_one", "%s: worker sees depth %r, its creator runs at depth %r" % (path, d, parent_depth)))
+    c = info.get("construct")
+    spec_fork = info.get("_fork")
+    should_ok = (limit <= 0) or (d < limit)
+    out["constructs"].append((d, c))
+    if c == "ok":
+        if not should_ok:
+            out["viol"].append(("constructed_beyond_limit", "%s: executor constructed at depth %r with MAX_DEPTH=%r" % (path, d, limit)))
+    elif c == "LokyRecursionError":
+        if should_ok and not info.get("fork_requested"):
+            out["viol"].append(("refused_below_limit", "%s: LokyRecursionError at depth %r with MAX_DEPTH=%r: %s" % (path, d, limit, info.get("construct_msg"))))
+    else:
+        out["viol"].append(("wrong_error_type", "%s: construction at depth %r failed with %s (%s), not LokyRecursionError" % (path, d, c, info.get("construct_msg"))))
+    for item in info.get("sub", []) or []:
+        stid, kind = item[0], item[1]
+        if kind == "value":
+            v = item[2]
+            if isinstance(v, list) and v and v[0] == "probe":
+                pd = (v[2] or {}).get("depth")
+                out["probes"] += 1
+                if pd != d + 1:
+                    out["viol"].append(("depth_not_parent_plus_one", "%s: task %s sees depth %r on a pool created at depth %r" % (path, stid, pd, d)))
+            elif isinstance(v, list) and v and v[0] == "nested":
+                _walk_nested(v, d, limit, out, path + ">" + stid)
+        elif kind == "exc":
+            out["viol"].append(("nested_task_failed", "%s: sub-task %s failed with %s: %s" % (path, stid, item[2], item[3] if len(item) > 3 else "")))
+
+
+def c19(case, F):
+    v = []
+    if F.outcome not in ("ended", "survivors"):
+        return v
+    m = case.get("meta", {})
+    maxd = m.get("max_depth")
+    limit = 10 if maxd is None else maxd
+    out = {"viol": [], "levels": 0, "probes": 0, "constructs": []}
+    fork_specs = _fork_tids(case)
+    for name, f in F.handed_out().items():
+        d = f["done"]
+        if d is None:
+            continue
+        spec = f["submit"]["spec"]
+        if d["state"] != "result":
+            if spec.get("k") in ("nested", "probe"):
+                out["viol"].append(("top_task_failed", "task %s failed: %s" % (name, json.dumps(d.get("exc"))[:300])))
+            continue
+        val = d["value"]
+        if spec.get("k") == "probe":
+            out["probes"] += 1
+            if (val[2] or {}).get("depth") != 1:
+                out["viol"].append(("depth_not_parent_plus_one", "worker of the top-level executor sees depth %r, expected 1" % (val[2] or {}).get("depth")))
+        elif spec.get("k") == "nested":
+            _mark_fork(val, spec)
+            _walk_nested(val, 0, limit, out, name)
+    # fork context at depth >= 1 must be refused
+    for e in F.h.by("nested_construct"):
+        pass
+    for name, f in F.handed_out().items():
+        d = f["done"]
+        if d is None or d["state"] != "result" or f["submit"]["spec"].get("k") != "nested":
+            continue
+        for path, info, spec in _iter_nested(d["value"], f["submit"]["spec"], name):
+            if (spec.get("kw") or {}).get("context") == "fork" and info.get("construct") == "ok":
+                out["viol"].append(("fork_allowed_in_worker", "%s: a fork-context executor was constructed at depth %r" % (path, info.get("depth"))))
+    # no process spawned beyond the limit
+    if limit > 0:
+        for pid, p in F.workers().items():
+            lvl = (p.get("proc") or "").count(":") + 1
+            if lvl > limit:
+                out["viol"].append(("process_spawned_beyond_limit", "worker %s (nesting level %d) was spawned although MAX_DEPTH=%d" % (p.get("proc"), lvl, limit)))
+    c19.last = out
+    for clause, text in out["viol"]:
+        v.append((_sig(case, F, clause, max_depth=maxd), witness_text(case, F, text)))
+    return v
+
+
+def _fork_tids(case):
+    return None
+
+
+def _mark_fork(val, spec):
+    """Annotate results with whether that level asked for the fork context (it must then fail)."""
+    if not (isinstance(val, list) and len(val) == 3 and val[0] == "nested"):
+        return
+    info = val[2]
+    info["fork_requested"] = (spec.get("kw") or {}).get("context") == "fork"
+    subs = spec.get("sub", [])
+    for item, sspec in zip(info.get("sub", []) or [], subs):
+        if item[1] == "value" and isinstance(item[2], list) and item[2] and item[2][0] == "nested":
+            _mark_fork(item[2], sspec)
+
+
+def _iter_nested(val, spec, path):
+    if not (isinstance(val, list) and len(val) == 3 and val[0] == "nested"):
+        return
+    info = val[2]
+    yield path, info, spec
+    for item, sspec in zip(info.get("sub", []) or [], spec.get("sub", [])):
+        if item[1] == "value" and isinstance(item[2], list) and item[2] and item[2][0] == "nested":
+            yield from _iter_nested(item[2], sspec, path + ">" + item[0])
+
+
+# ------------------------------------------------------------------ C18
+def c18(case, F):
+    v = []
+    if F.outcome not in ("ended", "survivors"):
+        return v
+    m = case.get("meta", {})
+    casedir_markers = ("/events.", "/stacks.")
+    # ---- descriptors
+    canary_inos = {}
+    keep = {}
+    for o in F.ops.values():
+        c, e = o["call"], o["end"]
+        if c is None or e is None or e["k"] != "ret":
+            continue
+        if c["op"] == "canary":
+            for cn in e["r"]["canaries"]:
+                canary_inos[tuple(cn["ino"])] = cn
+        if c["op"] == "keeplists":
+            for pid, fds in e["r"]["keep"].items():
+                if isinstance(fds, list):
+                    keep[int(pid)] = set(fds)
+    for pid, p in F.workers().items():
+        if p.get("ppid") != F.driver_pid:
+            continue
+        for n, (tgt, ino) in (p.get("fds") or {}).items():
+            fd = int(n)
+            if any(mk in tgt for mk in casedir_markers) or tgt.startswith("/proc/"):
+                continue  # the monitor's own files / the listing itself
+            if ino is not None and tuple(ino) in canary_inos:
+                cn = canary_inos[tuple(ino)]
+                v.append((_sig(case, F, "canary_inherited", inheritable=cn["inheritable"], kind=cn["kind"]), witness_text(case, F, "worker pid %d inherited descriptor %d -> %s, which is the parent's canary fd %d (%s, inheritable=%s)" % (pid, fd, tgt, cn["fd"], cn["kind"], cn["inheritable"]))))
+                continue
+            if fd <= 2:
+                continue
+            if pid in keep and fd not in keep[pid]:
+                v.append((_sig(case, F, "fd_outside_keep_list"), witness_text(case, F, "worker pid %d has descriptor %d -> %s at interpreter start-up, not in its keep-list %s" % (pid, fd, tgt, sorted(keep[pid])))))
+    # ---- environment at interpreter start-up
+    drv = F.procs.get(F.driver_pid) or {}
+    base_env = dict(drv.get("env") or {})
+    env_changes = []
+    for o in F.ops.values():
+        c, e = o["call"], o["end"]
+        if c and c["op"] == "setenv" and e is not None and e["k"] == "ret":
+            env_changes.append((e["t"], e["r"]["env"]))
+    env_changes.sort(key=lambda x: x[0])
+    overlay = (m.get("kw") or {}).get("env") or {}
+    if base_env:
+        for pid, p in F.workers().items():
+            if p.get("ppid") != F.driver_pid or "env" not in p:
+                continue
+            cur = dict(base_env)
+            for t, envd in env_changes:
+                if t <= p["t"]:
+                    cur = dict(envd)
+            want = dict(cur)
+            want.update(overlay)
+            got = p["env"]
+            if got != want:
+                diff = {k: (got.get(k), want.get(k)) for k in set(got) | set(want) if got.get(k) != want.get(k)}
+                v.append((_sig(case, F, "env_mismatch"), witness_text(case, F, "worker pid %d environment at start-up differs from parent's overlaid with env=: {key: (worker, expected)} = %s" % (pid, json.dumps(diff)[:600]))))
+    # ---- __main__ not re-run under the default start method
+    if m.get("ctx", "loky") == "loky":
+        lines = [x for x in F.h.read("main_ran.txt").split() if x.strip()]
+        if len(lines) != 1:
+            v.append((_sig(case, F, "main_rerun_in_worker"), witness_text(case, F, "the driver script's module-level side effect ran %d times (pids %s) under the default 'loky' start method" % (len(lines), lines))))
+    # ---- initializer ran first on every worker that ran a task
+    want_tok = ((m.get("kw") or {}).get("initializer") or {}).get("token")
+    failed_init_pids = set()
+    for e in F.h.by("init_run"):
+        pass
+    inits = {}
+    for e in F.h.by("init_run"):
+        inits.setdefault(e["pid"], []).append(e)
+    fail_on = set(((m.get("kw") or {}).get("initializer") or {}).get("fail_on") or [])
+    for pid, es in inits.items():
+        if any(e.get("n") in fail_on for e in es):
+            failed_init_pids.add(pid)
+    for tid, t in F.tasks.items():
+        for s in t["starts"]:
+            if "/" in tid:
+                continue
+            if s.get("init") != want_tok:
+                v.append((_sig(case, F, "task_on_uninitialised_worker"), witness_text(case, F, "task %s ran on worker pid %d whose init token is %r, the executor's initargs token is %r" % (tid, s["pid"], s.get("init"), want_tok))))
+            if s["pid"] in failed_init_pids:
+                v.append((_sig(case, F, "task_on_worker_with_failed_initializer"), witness_text(case, F, "task %s ran on worker pid %d whose initializer had failed" % (tid, s["pid"]))))
+    if failed_init_pids:
+        # the pool must break: everything unresolved fails with BrokenProcessPool, nothing is left pending
+        for name, f in F.handed_out().items():
+            d = f["done"]
+            if d is None:
+                v.append((_sig(case, F, "pending_after_initializer_failure"), witness_text(case, F, "future %s pending although an initializer failed (pids %s)" % (name, sorted(failed_init_pids)))))
+        # whether the breakage is *reported* depends on something being affected by it (a failure that
+        # lands after the last future resolved and right before a shutdown request is legitimately silent);
+        # what is demanded is: no task on that worker (above) and nothing left pending (here).
+    # ---- exit status / sentinel of bare processes
+    for o in F.ops.values():
+        c, e = o["call"], o["end"]
+        if c is None or c["op"] != "exitstatus" or e is None or e["k"] != "ret":
+            continue
+        for r in e["r"]["results"]:
+            how, code = r["how"], r["code"]
+            if how in ("os_exit", "cexit", "sys_exit"):
+                want = code
+            elif how == "return":
+                want = 0
+            elif how == "raise":
+                want = 1
+            else:
+                import signal
+
+                want = -int(getattr(signal, code))
+            if r["exitcode"] != want:
+                v.append((_sig(case, F, "exit_status_unfaithful", how=how), witness_text(case, F, "child ended by %s(%r): Process.exitcode=%r, expected %r" % (how, code, r["exitcode"], want))))
+            if r["sentinel_early"] and r["state_early"] not in (None, "Z"):
+                v.append((_sig(case, F, "sentinel_ready_while_alive"), witness_text(case, F, "sentinel of pid %s ready while the process was alive (state %s, age %.3fs)" % (r["pid"], r["state_early"], r["age_early"]))))
+            if not r["sentinel_after"]:
+                v.append((_sig(case, F, "sentinel_not_ready_after_exit"), witness_text(case, F, "sentinel of pid %s not ready after the process was joined" % r["pid"])))
+    return v
+
+
+# ------------------------------------------------------------------ C20
+def _census_key(r):
+    kids = {}
+    for c in r.get("children", []):
+        cmd = c["cmd"]
+        cls = "loky_tracker" if "loky.backend.resource_tracker" in cmd else "mp_tracker" if "multiprocessing.resource_tracker" in cmd else "worker" if "popen_loky_posix" in cmd else "other"
+        k = "%s/%s" % (cls, "Z" if c["state"] == "Z" else "live")
+        kids[k] = kids.get(k, 0) + 1
+    th = {}
+    for t in r.get("threads", []):
+        base = t.split("-")[0] if t.startswith("Thread-") else t
+        th[base] = th.get(base, 0) + 1
+    return {"fds": r.get("fds"), "threads": th, "children": kids, "shm": len(r.get("shm") or [])}
+
+
+def c20(case, F):
+    v = []
+    if F.outcome not in ("ended", "survivors"):
+        return v
+    cens = {}
+    for o in F.ops.values():
+        c, e = o["call"], o["end"]
+        if c and c["op"] == "census" and c["a"].get("tag") and e is not None and e["k"] == "ret":
+            cens[c["a"]["tag"]] = e["r"]
+    if "after_1" not in cens or "after_1+N" not in cens:
+        return v
+    a, b = _census_key(cens["after_1"]), _census_key(cens["after_1+N"])
+    c20.last = (a, b)
+    N = case.get("meta", {}).get("N")
+    for dim in ("fds", "threads", "children", "shm"):
+        if a[dim] != b[dim]:
+            detail = ""
+            if dim == "fds":
+                da, db = cens["after_1"].get("fd_detail", {}), cens["after_1+N"].get("fd_detail", {})
+                extra = {k: db[k] for k in db if k not in da}
+                detail = " new descriptors: %s" % json.dumps(extra)[:500]
+            v.append((_sig(case, F, "leak_" + dim), witness_text(case, F, "repeating the history %s more times changed the %s census: after 1 run %s, after 1+N runs %s.%s" % (N, dim, json.dumps(a[dim]), json.dumps(b[dim]), detail))))
+    return v
